@@ -30,6 +30,13 @@ def parseEv (s : String) : Option Ev :=
       let c ← c.toNat?
       if t ≤ 7 && c ≤ 5000 then some (.flood ⟨t, i⟩ c) else none
     | _ => none
+  | 'B' :: r => match (String.ofList r).splitOn "." with
+    | [t, i, c] => do
+      let t ← t.toNat?
+      let i ← i.toNat?
+      let c ← c.toNat?
+      if t ≤ 7 && c ≤ 5000 then some (.busy ⟨t, i⟩ c) else none
+    | _ => none
   | _ => none
 
 def parseOp (line : String) : Option (List Spec × List Ev) :=
@@ -110,26 +117,30 @@ def monitor (op obs : String) : String :=
   | some _ =>
   if obs = "HANG" then "FAIL machine-hung (never reached the expected quiescent point / never consumed a delivered message)" else
   if obs.startsWith "PANIC" then "FAIL panic" else
+  if obs.startsWith "LOST" then "FAIL delivered-messages-never-reached-Receive " ++ obs else
   match parseOp op with
   | none => "FAIL bad-op"
   | some (specs, evs) =>
     match splitWs obs with
-    | [sq, out, hist, real, _drop, lg] =>
-      let parsed : Option (List Nat × Outcome × List (Nat × Nat) × String × List LogEv) := do
+    | [sq, out, hist, real, drop, lg] =>
+      let parsed : Option (List Nat × Outcome × List (Nat × Nat) × String × List LogEv × Nat) := do
         let sq ← parseNats (← dropPrefix "seq=" sq)
         let out ← parseOut (← dropPrefix "out=" out)
         let hist ← (splitList (← dropPrefix "hist=" hist)).mapM parsePair
         let real ← dropPrefix "real=" real
         let lg ← (splitList (← dropPrefix "log=" lg)).mapM parseLogEv
-        pure (sq, out, hist, real, lg)
+        let drop ← (← dropPrefix "drop=" drop).toNat?
+        pure (sq, out, hist, real, lg, drop)
       match parsed with
       | none => "FAIL unparsable-observation"
-      | some (sq, out, hist, real, lg) =>
+      | some (sq, out, hist, real, lg, drop) =>
         if !holdsLog specs (deliveredOf evs) lg then "FAIL transition-or-history-rule"
         else if hist.map (fun (t, i) => (⟨t, i⟩ : Msg)) ≠ histOf lg then "FAIL history-differs-from-received"
         else if real ≠ showReal (histOf lg) then "FAIL stored-history-differs-from-admitted-messages"
         else if sq ≠ initiated lg then "FAIL seq"
         else if !outcomeOk specs lg out then "FAIL terminal-outcome"
+        else if out == .ctx && hist.length + drop ≠ (deliveredOf evs).length then
+          "FAIL machine-alive-but-delivered-messages-never-reached-Receive"
         else
           -- after a hold, `i`/`x` act on whatever state the held machine is in: not predicted
           let afterHold := evs.dropWhile (· != .hold)
